@@ -112,6 +112,39 @@ def subst_atoms(atoms, k, term):
     return out
 
 
+def guard_atoms(g, atoms):
+    """the bytes ``atoms`` if g else nothing (a write executed under the condition g)"""
+    out = []
+    for a in atoms:
+        if isinstance(a, AField):
+            out.append(AField(a.kind, If(g, zint(a.count), 0), a.seq))
+        elif isinstance(a, AText):
+            out.append(AText(Seq(If(g, zint(a.seq.n), 0), a.seq.get, a.seq.tag)))
+        elif isinstance(a, ARaw):
+            out.append(ARaw(Seq(If(g, zint(a.seq.n), 0), a.seq.get, a.seq.tag)))
+        elif isinstance(a, APad):
+            out.append(APad(If(g, zint(a.n), 0), a.dontcare))
+        elif isinstance(a, ALit):
+            if any(a.data):
+                out.append(ARaw(Seq(If(g, len(a.data), 0), Seq.of(list(a.data)).get)))
+            else:
+                out.append(APad(If(g, len(a.data), 0)))
+        elif isinstance(a, AFold):
+            out.append(AFold(a.lo, If(g, zint(a.hi), zint(a.lo)), a.body, a.tag))
+        else:
+            raise OutOfReach(f"conditional write of {a!r}")
+    return out
+
+
+def field_as_fold(a):
+    """an AField as the fold of its rows (table-shaped sequences) or of its single items: the same bytes"""
+    from .core import Seq2
+    if isinstance(a.seq, Seq2):
+        sq = a.seq
+        return AFold(0, sq.rows, (lambda k, sq=sq, a=a: [AField(a.kind, sq.cols, Seq(sq.cols, lambda j, k=k: sq.get2(k, j)))]), tag="rows")
+    return AFold(0, a.count, (lambda k, a=a: [AField(a.kind, 1, Seq(1, lambda i, k=k: a.seq.get(k)))]), tag="items")
+
+
 # ------------------------------------------------------------------------------------------------ sums
 class Sums:
     """linearised sums  SUM_{lo<=k<hi} t(k) = c0*(hi-lo) + sum_i c_i * S[a_i]  with one constant S per distinct summand atom"""
@@ -119,6 +152,7 @@ class Sums:
     def __init__(self, ctx):
         self.ctx = ctx
         self.table = {}
+        self.linked = set()
 
     def total(self, lo, hi, k, t):
         """k is a z3 Int constant occurring in t"""
@@ -134,13 +168,41 @@ class Sums:
         return z3.simplify(res)
 
     def _S(self, lo, hi, k, a):
+        """SUM_{lo<=k<hi} a  as a term.  The sum is a function of every other integer constant occurring in lo, hi and a
+        (enclosing loop indices among them: a nested sum must vary with the outer index), so it is an application
+        F(c1..cn) of one function symbol per summand shape -- the shape being the summand with its constants renamed
+        canonically, which makes the same sum written with differently named indices the same term."""
         canon = z3.Const("k!canon", I)
-        key = (str(zint(lo)), str(zint(hi)), z3.substitute(a, (k, canon)).sexpr())
-        if key not in self.table:
-            s = z3.Const(f"SUM!{len(self.table)}!{abs(hash(key)) % 10**8}", I)
-            self.table[key] = s
+        lo_t, hi_t = zint(lo), zint(hi)
+        body = z3.substitute(a, (k, canon))
+        consts = []
+        seen = set()
+        stack = [hi_t, lo_t, body]
+        order = []
+        # deterministic pre-order walk
+        def walk(x):
+            if x.get_id() in seen:
+                return
+            seen.add(x.get_id())
+            if z3.is_const(x) and x.decl().kind() == z3.Z3_OP_UNINTERPRETED and x.sort() == I and not x.eq(canon):
+                order.append(x)
+            for ch in x.children():
+                walk(ch)
+        for x in (lo_t, hi_t, body):
+            walk(x)
+        ren = [(c, z3.Const(f"c!canon{n}", I)) for n, c in enumerate(order)]
+        shape = (z3.substitute(lo_t, *ren).sexpr() if ren else lo_t.sexpr(), z3.substitute(hi_t, *ren).sexpr() if ren else hi_t.sexpr(),
+                 z3.substitute(body, *ren).sexpr() if ren else body.sexpr())
+        if shape not in self.table:
+            self.table[shape] = z3.Function(f"SUM!{len(self.table)}!{abs(hash(shape)) % 10**8}", *([I] * len(order)), I) if order else \
+                z3.Const(f"SUM!{len(self.table)}!{abs(hash(shape)) % 10**8}", I)
+        f = self.table[shape]
+        s = f(*order) if order else f
+        inst = s.sexpr()
+        if inst not in self.linked:
+            self.linked.add(inst)
             # linking axioms: empty range sums to 0; sums of non-negative summands are non-negative (when provable)
-            self.ctx.assume(Implies(zint(hi) <= zint(lo), s == 0))
+            self.ctx.assume(Implies(hi_t <= lo_t, s == 0))
             self.ctx.solver.push()
             self.ctx.solver.add(rng(lo, k, hi))
             nonneg = self.ctx.solver.check(a < 0) == z3.unsat
@@ -149,8 +211,8 @@ class Sums:
             if nonneg:
                 self.ctx.assume(s >= 0)
             if pos:
-                self.ctx.assume(s >= zint(hi) - zint(lo))
-        return self.table[key]
+                self.ctx.assume(s >= hi_t - lo_t)
+        return s
 
 
 def _mentions(t, k):
@@ -200,6 +262,20 @@ def _linear(t, k):
     if z3.is_app(t) and t.decl().kind() == z3.Z3_OP_UMINUS:
         c, p = _linear(t.children()[0], k)
         return -c, [(-co, a) for co, a in p]
+    if z3.is_app(t) and t.decl().kind() == z3.Z3_OP_ITE:
+        # If(c, c0 + sum co_i*a_i, 0) = c0*If(c,1,0) + sum co_i*If(c,a_i,0): constant factors leave the conditional, so a
+        # guarded summand has one canonical shape whichever side multiplied first
+        c, x, y = t.children()
+        zero = lambda e: z3.is_int_value(e) and e.as_long() == 0
+        if zero(z3.simplify(y)) or zero(z3.simplify(x)):
+            if zero(z3.simplify(x)):
+                c, x = z3.simplify(z3.Not(c)), y
+            c0, parts = _linear(z3.simplify(x), k)
+            out = [(co, z3.If(c, a, 0)) for co, a in parts]
+            c0s = z3.simplify(zint(c0)) if not isinstance(c0, int) else z3.IntVal(c0)
+            if not zero(c0s):
+                out.append((c0, z3.If(c, z3.IntVal(1), z3.IntVal(0))))
+            return 0, out
     return 0, [(1, t)]
 
 
@@ -349,6 +425,12 @@ def stream_eq_goals(ctx, impl, spec, what="stream", guard=True):
                 continue
             if ctx.entails(eq(alen(ctx, b), 0)):
                 j += 1
+                continue
+            if isinstance(a, AField) and isinstance(b, AFold):
+                impl[i] = field_as_fold(a)
+                continue
+            if isinstance(a, AFold) and isinstance(b, AField):
+                spec[j] = field_as_fold(b)
                 continue
             raise Unaligned(f"{tag}: wrote {a!r} where the layout has {b!r}")
         i += 1
